@@ -37,4 +37,11 @@ PROPS = {
         "assumptions": ["gorgonia Reshape on a fresh clone is modelled as: element-count check, then panic on a negative extent"],
         "explain": {"C07_ops": "Eval vm_compute in (spec the_case, model the_case, known_class the_case)."},
     },
+    "C08": {
+        "check_modules": ["theories/Check/CheckC08.v"],
+        "theorem": "C08_*",
+        "trusted_base": COMMON_TB,
+        "assumptions": ["gorgonia Slice/Transpose/Concat/Repeat are modelled (G/Slice.v, Model/IndexOps.v); in the region where a gorgonia slice has start = end the library reads through an empty view and the model does not predict it (class slice-empty)"],
+        "explain": {"C08_ops": "Eval vm_compute in (spec the_case, model the_case, known_class the_case)."},
+    },
 }
